@@ -227,6 +227,42 @@ def gen_cases(thorough):
             b = bytes(b)
         else: b = a.swapcase()
         cs.append("lev %s %s" % (hx(a), hx(b)))
+    # --- aliasing regime: argument VALUES that can share storage (equal, prefix, suffix, infix, overlapping) so that the
+    #     harness' one-buffer layouts (same start / same end / contained / overlap / same range twice) are all reached
+    def related(a, al):
+        r = rng.below(6)
+        if r == 0 or not a: return a                                              # equal: the same range twice
+        if r == 1: return a[:rng.below(len(a) + 1)]                               # prefix: same start, different length
+        if r == 2: return a[rng.below(len(a) + 1):]                               # suffix: same end
+        if r == 3: i = rng.below(len(a)); return a[i:i + 1 + rng.below(3)]       # infix
+        if r == 4: k = 1 + rng.below(len(a)); return a[len(a) - k:] + rbytes(1 + rng.below(3), al)   # overlaps the end
+        return a + rbytes(1 + rng.below(2), al)                                   # a is a proper prefix of b
+    for a in all_strings([b"a", b"b"], 3):                                        # exhaustive small: every (string, prefix/suffix/infix) pair
+        subs = {a[i:j] for i in range(len(a) + 1) for j in range(i, len(a) + 1)}
+        for b in sorted(subs):
+            cs.append("lev %s %s" % (hx(a), hx(b))); cs.append("lev %s %s" % (hx(b), hx(a)))
+            cs.append("cmp %s %s" % (hx(a), hx(b))); cs.append("sw %s %s" % (hx(a), hx(b)))
+            if b:
+                cs.append("spls %s %s npos" % (hx(b), hx(a))); cs.append("repa %s %s %s" % (hx(a), hx(b), hx(a[:1])))
+                cs.append("trim %s %s" % (hx(a), hx(b))); cs.append("era %s %s" % (hx(a), hx(b)))
+    for _ in range(250 * scale):
+        al = rng.choice([[b"a", b"b"], [b"a", b"A", b"b", b"B", b" "], [b"a", b"b", b",", b"\x80"], AL_CASE])
+        a = rbytes(1 + rng.below(9), al); b = related(a, al); c = related(a, al)
+        if rng.chance(1, 2): a0, b0 = a, b
+        else: a0, b0 = b, a
+        r = rng.below(10)
+        if r <= 1: cs.append("lev %s %s" % (hx(a0), hx(b0)))
+        elif r == 2: cs.append("cmp %s %s" % (hx(a0), hx(b0 if rng.chance(2, 3) else b0.swapcase())))
+        elif r == 3: cs.append("sw %s %s" % (hx(a), hx(b if rng.chance(2, 3) else b.swapcase())))
+        elif r == 4 and b: cs.append("spls %s %s %s" % (hx(b), hx(a), lim_str(rng.choice([None, None, 1, 2, 3]))))
+        elif r == 5 and b: cs.append("%s %s %s %s" % (rng.choice(["repa", "rep1"]), hx(a), hx(b), hx(c)))
+        elif r == 6: cs.append("trim %s %s" % (hx(a), hx(b)))
+        elif r == 7: cs.append("era %s %s" % (hx(a), hx(b)))
+        elif r == 8 and b:                                                         # the glue is one of the joined strings / a piece of one
+            parts = [rbytes(rng.below(3), al) for _ in range(rng.below(3))] + [a] + [rbytes(rng.below(3), al) for _ in range(rng.below(3))]
+            if rng.chance(1, 2): parts[rng.below(len(parts))] = b
+            cs.append("joins %s %d %s" % (hx(b), len(parts), " ".join(hx(x) for x in parts)))
+        else: cs.append("lev %s %s" % (hx(a0.swapcase()), hx(b0)))
     # --- regimes added by the API-surface audit -------------------------------------------------------------
     ALL = bytes(range(256))
     # base64: long inputs crossing the line-break width several times, widths 4 / 8 / 76 (and 0, 64), lengths around the
